@@ -799,7 +799,7 @@ func runRecord(fl map[string]string) error {
 
 func run(args []string) error {
 	if len(args) < 1 {
-		return fmt.Errorf("usage: C34 gate|record ...")
+		return fmt.Errorf("usage: C34 gate|record|storm ...")
 	}
 	fl := h.Flags(args[1:])
 	switch args[0] {
@@ -807,6 +807,8 @@ func run(args []string) error {
 		return runGate(fl)
 	case "record":
 		return runRecord(fl)
+	case "storm":
+		return runStorm(fl)
 	}
 	return fmt.Errorf("unknown mode %q", args[0])
 }
